@@ -1,2 +1,340 @@
-From V Require Import Model.NtsRecord.
-Lemma placeholder_nts : True. Proof. exact I. Qed.
+(* Lemmas about the byte-level record model (Model/NtsRecord.v): totality,
+   what the parser leaves unread, round trip. *)
+From V Require Import Model.NtsRecord Gen.ConstNts.
+From Coq Require Import ZifyBool.
+Ltac Zify.zify_post_hook ::= Z.div_mod_to_equations.
+
+(* ---- well-formed records: the invariant of everything the parser returns,
+        and what the round trip needs ---- *)
+Definition known_type (rt : Z) : bool :=
+  (rt =? RT_END_OF_MESSAGE) || (rt =? RT_NEXT_PROTOCOL) || (rt =? RT_ERROR) || (rt =? RT_WARNING)
+  || (rt =? RT_AEAD_ALGORITHM) || (rt =? RT_NEW_COOKIE) || (rt =? RT_SERVER) || (rt =? RT_PORT)
+  || (rt =? RT_KEEP_ALIVE) || (rt =? RT_SUPPORTED_NEXT_PROTOCOL_LIST)
+  || (rt =? RT_SUPPORTED_ALGORITHM_LIST) || (rt =? RT_FIXED_KEY_REQUEST)
+  || (rt =? RT_NTP_SERVER_DENY) || (rt =? RT_AUTHENTICATION).
+
+Definition wf_record (r : record) : Prop :=
+  match r with
+  | ServerR s | NtpServerDenyR s | AuthenticationR s => utf8_valid s = true
+  | UnknownR ty _ _ => 0 <= ty < 32768 /\ known_type ty = false
+  | FixedKeyRequestR a b => length a = length b
+  | _ => True
+  end.
+
+(* ---- arithmetic and list basics ---- *)
+Lemma u16_be16 v : u16 (v / 256) (v mod 256) = v.
+Proof. unfold u16. lia. Qed.
+
+Lemma zlen_app {A} (a b : list A) : zlen (a ++ b) = zlen a + zlen b.
+Proof. unfold zlen. rewrite app_length. lia. Qed.
+
+Lemma zlen_nonneg {A} (a : list A) : 0 <= zlen a.
+Proof. unfold zlen. lia. Qed.
+
+Lemma zlen_cons {A} (x : A) (a : list A) : zlen (x :: a) = 1 + zlen a.
+Proof. unfold zlen. cbn [length]. lia. Qed.
+
+Lemma to_nat_zlen {A} (a : list A) : Z.to_nat (zlen a) = length a.
+Proof. unfold zlen. apply Nat2Z.id. Qed.
+
+Lemma firstn_exact {A} (a t : list A) : firstn (length a) (a ++ t) = a.
+Proof. rewrite firstn_app, Nat.sub_diag, firstn_all. cbn. apply app_nil_r. Qed.
+
+Lemma skipn_exact {A} (a t : list A) : skipn (length a) (a ++ t) = t.
+Proof. rewrite skipn_app, Nat.sub_diag, skipn_all. reflexivity. Qed.
+
+Lemma u16s_flat ids : u16s (flat_map be16 ids) = Some ids.
+Proof.
+  induction ids as [|v r IH]; [reflexivity|].
+  cbn [flat_map be16 app u16s]. rewrite IH, u16_be16. reflexivity.
+Qed.
+
+Lemma zlen_flat_be16 ids : zlen (flat_map be16 ids) = 2 * zlen ids.
+Proof.
+  induction ids as [|v r IH]; [reflexivity|].
+  cbn [flat_map be16 app]. rewrite !zlen_cons, IH. lia.
+Qed.
+
+(* strong induction two elements at a time *)
+Lemma list_ind2 {A} (P : list A -> Prop) :
+  P [] -> (forall x, P [x]) -> (forall x y l, P l -> P (x :: y :: l)) -> forall l, P l.
+Proof.
+  intros H0 H1 H2. fix IH 1. intros [|x [|y l]]; [exact H0|apply H1|apply H2, IH].
+Qed.
+
+Lemma u16s_len w : forall l, u16s w = Some l -> zlen w = 2 * zlen l.
+Proof.
+  induction w as [| x | hi lo r IH] using list_ind2; intros l H.
+  - inversion H. reflexivity.
+  - discriminate.
+  - cbn [u16s] in H. destruct (u16s r) as [l'|] eqn:E; [|discriminate].
+    inversion H. subst. rewrite !zlen_cons, (IH l' eq_refl). lia.
+Qed.
+
+Lemma pairs_len l : forall p, pairs l = Some p -> zlen l = 2 * zlen p.
+Proof.
+  induction l as [| x | a b r IH] using list_ind2; intros p H.
+  - inversion H. reflexivity.
+  - discriminate.
+  - cbn [pairs] in H. destruct (pairs r) as [p'|] eqn:E; [|discriminate].
+    inversion H. subst. rewrite !zlen_cons, (IH p' eq_refl). lia.
+Qed.
+
+Lemma zlen_flat_pairs ds : zlen (flat_map ser_pair ds) = 4 * zlen ds.
+Proof.
+  induction ds as [|d r IH]; [reflexivity|].
+  cbn [flat_map]. rewrite zlen_app, zlen_cons, IH. unfold ser_pair, be16, zlen. cbn [app length]. lia.
+Qed.
+
+Lemma u16s_pairs_flat ds :
+  u16s (flat_map ser_pair ds) = Some (flat_map enc_pair ds) /\ pairs (flat_map enc_pair ds) = Some ds.
+Proof.
+  induction ds as [|[a b] r [IH1 IH2]]; [split; reflexivity|].
+  cbn [flat_map ser_pair enc_pair be16 app fst snd u16s pairs].
+  rewrite IH1, IH2, !u16_be16. split; reflexivity.
+Qed.
+
+(* ---- the header ---- *)
+Lemma parse_record_ser ty body t :
+  parse_record (be16 ty ++ be16 (zlen body) ++ body ++ t) =
+  (let '(x, wrest) := parse_body (ty mod 32768) (32768 <=? ty) (zlen body) body in (x, wrest ++ t)).
+Proof.
+  unfold parse_record, be16. cbn [app].
+  rewrite !u16_be16, to_nat_zlen, firstn_exact, skipn_exact.
+  change (TYPE_MASK + 1) with 32768. change CRITICAL_MASK with 32768. reflexivity.
+Qed.
+
+Lemma truncated_self w : truncated (zlen w) w = false.
+Proof. unfold truncated. apply Z.ltb_irrefl. Qed.
+
+Lemma parse_body_unknown rt crit size w :
+  known_type rt = false -> parse_body rt crit size w = body_bytes (UnknownR rt crit) size w.
+Proof.
+  unfold known_type, parse_body. intros H.
+  repeat (apply orb_false_elim in H; destruct H as [H ?]).
+  repeat match goal with E : (_ =? _) = false |- _ => rewrite E; clear E end. reflexivity.
+Qed.
+
+(* ---- round trip ---- *)
+Lemma record_roundtrip r t : wf_record r -> parse_record (ser_record r ++ t) = (Ok r, t).
+Proof.
+  intros W. unfold ser_record. rewrite <- !app_assoc, parse_record_ser.
+  destruct r; cbn [rec_type rec_body wf_record] in *.
+  - reflexivity.
+  - change ((ST_NEXT_PROTOCOL + CRITICAL_BIT) mod 32768) with 1.
+    unfold parse_body. cbn [Z.eqb RT_END_OF_MESSAGE RT_NEXT_PROTOCOL Pos.eqb].
+    unfold body_u16s. rewrite u16s_flat, truncated_self. reflexivity.
+  - change ((ST_ERROR + CRITICAL_BIT) mod 32768) with 2. unfold parse_body, body_one, be16.
+    cbn -[Z.div Z.modulo u16]. rewrite u16_be16. reflexivity.
+  - change ((ST_WARNING + CRITICAL_BIT) mod 32768) with 3. unfold parse_body, body_one, be16.
+    cbn -[Z.div Z.modulo u16]. rewrite u16_be16. reflexivity.
+  - change ((ST_AEAD_ALGORITHM + CRITICAL_BIT) mod 32768) with 4.
+    unfold parse_body. cbn [Z.eqb RT_END_OF_MESSAGE RT_NEXT_PROTOCOL RT_ERROR RT_WARNING RT_AEAD_ALGORITHM Pos.eqb].
+    unfold body_u16s. rewrite u16s_flat, truncated_self. reflexivity.
+  - change (ST_NEW_COOKIE mod 32768) with 5.
+    unfold parse_body. cbn [Z.eqb RT_END_OF_MESSAGE RT_NEXT_PROTOCOL RT_ERROR RT_WARNING RT_AEAD_ALGORITHM RT_NEW_COOKIE Pos.eqb].
+    unfold body_bytes. rewrite truncated_self. rewrite app_nil_l. reflexivity.
+  - change ((ST_SERVER + CRITICAL_BIT) mod 32768) with 6.
+    unfold parse_body. cbn [Z.eqb RT_END_OF_MESSAGE RT_NEXT_PROTOCOL RT_ERROR RT_WARNING RT_AEAD_ALGORITHM RT_NEW_COOKIE RT_SERVER Pos.eqb].
+    unfold body_string. rewrite W, truncated_self. reflexivity.
+  - change ((ST_PORT + CRITICAL_BIT) mod 32768) with 7. unfold parse_body, body_one, be16.
+    cbn -[Z.div Z.modulo u16]. rewrite u16_be16. reflexivity.
+  - destruct W as [Hr Hk].
+    replace ((ty + (if critical then CRITICAL_BIT else 0)) mod 32768) with ty
+      by (destruct critical; change CRITICAL_BIT with 32768; lia).
+    replace (32768 <=? ty + (if critical then CRITICAL_BIT else 0)) with critical
+      by (destruct critical; change CRITICAL_BIT with 32768; lia).
+    rewrite parse_body_unknown by exact Hk. unfold body_bytes. rewrite truncated_self. reflexivity.
+  - reflexivity.
+  - change ((ST_SUPPORTED_NEXT_PROTOCOL_LIST + CRITICAL_BIT) mod 32768) with 9.
+    unfold parse_body. cbn [Z.eqb RT_END_OF_MESSAGE RT_NEXT_PROTOCOL RT_ERROR RT_WARNING RT_AEAD_ALGORITHM RT_NEW_COOKIE RT_SERVER RT_PORT RT_KEEP_ALIVE RT_SUPPORTED_NEXT_PROTOCOL_LIST Pos.eqb].
+    unfold body_u16s. rewrite u16s_flat, truncated_self. reflexivity.
+  - change ((ST_SUPPORTED_ALGORITHM_LIST + CRITICAL_BIT) mod 32768) with 10.
+    unfold parse_body. cbn [Z.eqb RT_END_OF_MESSAGE RT_NEXT_PROTOCOL RT_ERROR RT_WARNING RT_AEAD_ALGORITHM RT_NEW_COOKIE RT_SERVER RT_PORT RT_KEEP_ALIVE RT_SUPPORTED_NEXT_PROTOCOL_LIST RT_SUPPORTED_ALGORITHM_LIST Pos.eqb].
+    unfold body_pairs. destruct (u16s_pairs_flat descs) as [E1 E2]. rewrite E1, E2, truncated_self. reflexivity.
+  - change ((ST_FIXED_KEY_REQUEST + CRITICAL_BIT) mod 32768) with 12.
+    unfold parse_body. cbn [Z.eqb RT_END_OF_MESSAGE RT_NEXT_PROTOCOL RT_ERROR RT_WARNING RT_AEAD_ALGORITHM RT_NEW_COOKIE RT_SERVER RT_PORT RT_KEEP_ALIVE RT_SUPPORTED_NEXT_PROTOCOL_LIST RT_SUPPORTED_ALGORITHM_LIST RT_FIXED_KEY_REQUEST Pos.eqb].
+    unfold body_fixed. rewrite zlen_app.
+    assert (Hl : zlen c2s = zlen s2c) by (unfold zlen; lia).
+    replace ((zlen c2s + zlen s2c) / 2) with (zlen c2s) by lia.
+    replace (zlen c2s + zlen s2c <? 2 * zlen c2s) with false by lia.
+    replace (zlen c2s + zlen s2c =? 2 * zlen c2s) with true by lia.
+    rewrite to_nat_zlen, firstn_exact, skipn_exact.
+    rewrite <- (app_nil_r s2c) at 1 2. rewrite W at 1 2. rewrite firstn_exact, skipn_exact. reflexivity.
+  - change (ST_NTP_SERVER_DENY mod 32768) with 13.
+    unfold parse_body. cbn [Z.eqb RT_END_OF_MESSAGE RT_NEXT_PROTOCOL RT_ERROR RT_WARNING RT_AEAD_ALGORITHM RT_NEW_COOKIE RT_SERVER RT_PORT RT_KEEP_ALIVE RT_SUPPORTED_NEXT_PROTOCOL_LIST RT_SUPPORTED_ALGORITHM_LIST RT_FIXED_KEY_REQUEST RT_NTP_SERVER_DENY Pos.eqb].
+    unfold body_string. rewrite W, truncated_self. reflexivity.
+  - change (ST_AUTHENTICATION mod 32768) with 14.
+    unfold parse_body. cbn [Z.eqb RT_END_OF_MESSAGE RT_NEXT_PROTOCOL RT_ERROR RT_WARNING RT_AEAD_ALGORITHM RT_NEW_COOKIE RT_SERVER RT_PORT RT_KEEP_ALIVE RT_SUPPORTED_NEXT_PROTOCOL_LIST RT_SUPPORTED_ALGORITHM_LIST RT_FIXED_KEY_REQUEST RT_NTP_SERVER_DENY RT_AUTHENTICATION Pos.eqb].
+    unfold body_string. rewrite W, truncated_self. reflexivity.
+Qed.
+
+(* ---- what a body parser returns: never a panic; the unread bytes are a
+        suffix of the window; an accepted record is well formed and its body
+        is not longer than what was read ---- *)
+Definition body_spec (size : Z) (w : list Z) (o : res record * list Z) : Prop :=
+  (forall s, fst o <> Panic s) /\
+  (exists c, w = c ++ snd o /\
+     forall r, fst o = Ok r -> wf_record r /\ zlen (rec_body r) <= zlen c).
+
+Lemma spec_err size w e : body_spec size w (Err e, []).
+Proof.
+  split; [discriminate|]. exists w. rewrite app_nil_r. split; [reflexivity|discriminate].
+Qed.
+
+Lemma spec_ok_all size w r :
+  wf_record r -> zlen (rec_body r) <= zlen w -> body_spec size w (Ok r, []).
+Proof.
+  intros W L. split; [discriminate|]. exists w. rewrite app_nil_r. split; [reflexivity|].
+  intros r' E. inversion E. subst. split; assumption.
+Qed.
+
+Lemma body_discard_spec r size w :
+  wf_record r -> rec_body r = [] -> body_spec size w (body_discard r size w).
+Proof.
+  intros W B. unfold body_discard. destruct (truncated size w); [apply spec_err|].
+  apply spec_ok_all; [exact W|]. rewrite B. apply zlen_nonneg.
+Qed.
+
+Lemma body_u16s_spec mk size w :
+  (forall l, wf_record (mk l) /\ rec_body (mk l) = flat_map be16 l) ->
+  body_spec size w (body_u16s mk size w).
+Proof.
+  intros M. unfold body_u16s. destruct (u16s w) as [l|] eqn:E; [|apply spec_err].
+  destruct (truncated size w); [apply spec_err|].
+  destruct (M l) as [W B]. apply spec_ok_all; [exact W|].
+  rewrite B, zlen_flat_be16, (u16s_len _ _ E). lia.
+Qed.
+
+Lemma body_pairs_spec size w : body_spec size w (body_pairs SupportedAlgorithmListR size w).
+Proof.
+  unfold body_pairs. destruct (u16s w) as [l|] eqn:E; [|apply spec_err].
+  destruct (pairs l) as [p|] eqn:P; [|apply spec_err].
+  destruct (truncated size w); [apply spec_err|].
+  apply spec_ok_all; [exact I|]. cbn [rec_body].
+  rewrite zlen_flat_pairs, (u16s_len _ _ E), (pairs_len _ _ P). lia.
+Qed.
+
+Lemma body_one_spec mk size w :
+  (forall c, wf_record (mk c) /\ rec_body (mk c) = be16 c) ->
+  body_spec size w (body_one mk size w).
+Proof.
+  intros M. unfold body_one. destruct w as [|hi [|lo r]]; try apply spec_err.
+  destruct (size =? 2).
+  - split; [discriminate|]. exists [hi; lo]. split; [reflexivity|].
+    intros r' E. inversion E. subst. destruct (M (u16 hi lo)) as [W B]. split; [exact W|].
+    rewrite B. unfold be16, zlen. cbn [length]. lia.
+  - split; [discriminate|]. exists [hi; lo]. split; [reflexivity|discriminate].
+Qed.
+
+Lemma body_bytes_spec mk size w :
+  (forall d, rec_body (mk d) = d) -> wf_record (mk w) -> body_spec size w (body_bytes mk size w).
+Proof.
+  intros M W. unfold body_bytes. destruct (truncated size w); [apply spec_err|].
+  apply spec_ok_all; [exact W|]. rewrite M. lia.
+Qed.
+
+Lemma body_string_spec mk size w :
+  (forall d, rec_body (mk d) = d) -> (utf8_valid w = true -> wf_record (mk w)) ->
+  body_spec size w (body_string mk size w).
+Proof.
+  intros M W. unfold body_string. destruct (utf8_valid w); [|apply spec_err].
+  destruct (truncated size w); [apply spec_err|].
+  apply spec_ok_all; [apply W; reflexivity|]. rewrite M. lia.
+Qed.
+
+Lemma body_fixed_spec size w : body_spec size w (body_fixed size w).
+Proof.
+  unfold body_fixed. set (h := size / 2). set (hn := Z.to_nat h).
+  destruct (zlen w <? 2 * h) eqn:L; [apply spec_err|].
+  assert (D : w = (firstn hn w ++ firstn hn (skipn hn w)) ++ skipn hn (skipn hn w)).
+  { rewrite <- app_assoc, firstn_skipn, firstn_skipn. reflexivity. }
+  destruct (size =? 2 * h).
+  - split; [discriminate|]. eexists. split; [exact D|].
+    intros r E. inversion E. subst r. cbn [wf_record rec_body]. split; [|lia].
+    rewrite !firstn_length, skipn_length. unfold zlen in L. subst hn. lia.
+  - split; [discriminate|]. eexists. split; [exact D|discriminate].
+Qed.
+
+Lemma parse_body_spec rt crit size w :
+  0 <= rt < 32768 -> body_spec size w (parse_body rt crit size w).
+Proof.
+  intros R. destruct (known_type rt) eqn:K.
+  - unfold parse_body. unfold known_type in K.
+    destruct (rt =? RT_END_OF_MESSAGE); [apply body_discard_spec; [exact I|reflexivity]|].
+    destruct (rt =? RT_NEXT_PROTOCOL); [apply body_u16s_spec; intros; split; [exact I|reflexivity]|].
+    destruct (rt =? RT_ERROR); [apply body_one_spec; intros; split; [exact I|reflexivity]|].
+    destruct (rt =? RT_WARNING); [apply body_one_spec; intros; split; [exact I|reflexivity]|].
+    destruct (rt =? RT_AEAD_ALGORITHM); [apply body_u16s_spec; intros; split; [exact I|reflexivity]|].
+    destruct (rt =? RT_NEW_COOKIE); [apply body_bytes_spec; [reflexivity|exact I]|].
+    destruct (rt =? RT_SERVER); [apply body_string_spec; [reflexivity|intros U; exact U]|].
+    destruct (rt =? RT_PORT); [apply body_one_spec; intros; split; [exact I|reflexivity]|].
+    destruct (rt =? RT_KEEP_ALIVE); [apply body_discard_spec; [exact I|reflexivity]|].
+    destruct (rt =? RT_SUPPORTED_NEXT_PROTOCOL_LIST); [apply body_u16s_spec; intros; split; [exact I|reflexivity]|].
+    destruct (rt =? RT_SUPPORTED_ALGORITHM_LIST); [apply body_pairs_spec|].
+    destruct (rt =? RT_FIXED_KEY_REQUEST); [apply body_fixed_spec|].
+    destruct (rt =? RT_NTP_SERVER_DENY); [apply body_string_spec; [reflexivity|intros U; exact U]|].
+    destruct (rt =? RT_AUTHENTICATION); [apply body_string_spec; [reflexivity|intros U; exact U]|].
+    discriminate K.
+  - rewrite parse_body_unknown by exact K.
+    apply body_bytes_spec; [reflexivity|]. cbn [wf_record]. split; assumption.
+Qed.
+
+(* ---- NtsRecord::parse ---- *)
+Lemma zlen_ser_record r : zlen (ser_record r) = 4 + zlen (rec_body r).
+Proof. unfold ser_record, be16. cbn [app]. rewrite !zlen_cons. lia. Qed.
+
+Lemma parse_record_spec inp :
+  (forall s, fst (parse_record inp) <> Panic s) /\
+  (exists c, inp = c ++ snd (parse_record inp) /\
+     forall r, fst (parse_record inp) = Ok r -> wf_record r /\ zlen (ser_record r) <= zlen c).
+Proof.
+  unfold parse_record.
+  destruct inp as [|t1 [|t0 [|s1 [|s0 r2]]]];
+    try (split; [discriminate|]; eexists; rewrite app_nil_r; split; [reflexivity|discriminate]).
+  set (ty := u16 t1 t0). set (size := u16 s1 s0). set (n := Z.to_nat size).
+  assert (R : 0 <= ty mod (TYPE_MASK + 1) < 32768)
+    by (change (TYPE_MASK + 1) with 32768; apply Z.mod_pos_bound; lia).
+  pose proof (parse_body_spec (ty mod (TYPE_MASK + 1)) (CRITICAL_MASK <=? ty) size (firstn n r2) R) as S.
+  unfold body_spec in S.
+  destruct (parse_body _ _ size (firstn n r2)) as [x wrest]. cbn beta iota delta [fst snd] in *.
+  destruct S as [NP [c [D A]]]. split; [exact NP|].
+  exists ([t1; t0; s1; s0] ++ c). split.
+  - rewrite <- app_assoc. cbn [app]. do 4 f_equal.
+    rewrite app_assoc, <- D. symmetry. apply firstn_skipn.
+  - intros r E. destruct (A r E) as [W L]. split; [exact W|].
+    rewrite zlen_ser_record, zlen_app. unfold zlen at 2. cbn [length]. lia.
+Qed.
+
+Lemma parse_record_total inp s : fst (parse_record inp) <> Panic s.
+Proof. apply parse_record_spec. Qed.
+
+Lemma parse_record_suffix inp x rest :
+  parse_record inp = (x, rest) -> exists c, inp = c ++ rest.
+Proof.
+  intros E. destruct (parse_record_spec inp) as [_ [c [D _]]]. rewrite E in D. exists c. exact D.
+Qed.
+
+Lemma parse_record_ok inp r rest :
+  parse_record inp = (Ok r, rest) ->
+  wf_record r /\ exists c, inp = c ++ rest /\ zlen (ser_record r) <= zlen c.
+Proof.
+  intros E. destruct (parse_record_spec inp) as [_ [c [D A]]]. rewrite E in D, A. cbn [fst snd] in *.
+  destruct (A r eq_refl) as [W L]. split; [exact W|]. exists c. split; assumption.
+Qed.
+
+(* the statement of the property for records: whatever is accepted
+   re-serialises to bytes that parse back to the same record, whatever follows *)
+Lemma record_reparse inp r rest :
+  parse_record inp = (Ok r, rest) -> forall t, parse_record (ser_record r ++ t) = (Ok r, t).
+Proof.
+  intros E t. apply record_roundtrip. apply (parse_record_ok _ _ _ E).
+Qed.
+
+Lemma ser_fits_parsed inp r rest :
+  zlen inp <= 65539 -> parse_record inp = (Ok r, rest) -> ser_fits r.
+Proof.
+  intros L E. destruct (parse_record_ok _ _ _ E) as [_ [c [D B]]].
+  unfold ser_fits. rewrite zlen_ser_record in B. subst inp. rewrite zlen_app in L.
+  pose proof (zlen_nonneg rest). lia.
+Qed.
